@@ -74,10 +74,10 @@ func init() {
 	reg(&Prop{ID: "C06", Level: "exploration",
 		Quick:    Tier{Cases: 80000, PerJob: 5000, Seconds: 60},
 		Thorough: Tier{Cases: 3000000, PerJob: 50000, Seconds: 1500},
-		Rule:     "one case = blob (2/3 built from few distinct chunks repeated so that workers race on one ID, 1/3 generic) x one of {ChopFile, Copy (with and without duplicate ids), ChunkStream, make = IndexFromFile + ChopFile} x n in 1..8 x optional pre-filled target x fault budget 0..3 (the k-th HasChunk / StoreChunk of the target or GetChunk of the source fails or is slow; 1/3 of the cases are fault-free); oracle: nil => no injected failure was returned to desync, every index chunk is in the target store with correct bytes, a produced index equals the reference table; error => some failure was injected; distinct = distinct (class, scheduler trace hash); non-trivial = preemption or fault fired",
+		Rule:     "one case = blob (2/3 built from few distinct chunks repeated so that workers race on one ID, 1/3 generic) x one of {ChopFile, Copy (with and without duplicate ids), ChunkStream, make = IndexFromFile + ChopFile} x n in 1..8 x optional pre-filled target x fault budget 0..3 (the k-th HasChunk / StoreChunk of the target or GetChunk of the source fails or is slow; 1/3 of the cases are fault-free); oracle: nil => no injected failure was returned to desync, every index chunk is in the target store with correct bytes, a produced index equals the reference table; error => some failure was injected; 1/100 of the cases run the real `desync chop | cache | make | tar -i` binary (-e 0) against a loopback chunk server that answers the k-th HEAD/PUT/GET with 500: exit status must be non-zero then, and the store (and index) complete on exit 0; distinct = distinct (class, scheduler trace hash); non-trivial = preemption or fault fired",
 		Assumptions: []string{
 			"store failures are injected at call granularity (the call returns an error without side effect)",
-			"tar -i is covered through ChunkStream (the same function the command uses) with a byte reader instead of the tar pipe",
+			"in-bubble, tar -i is covered through ChunkStream (the same function the command uses) with a byte reader instead of the tar pipe; the command itself runs at process level",
 		},
 		Real: []string{"ChunkStorage", "ChopFile", "Copy", "ChunkStream", "IndexFromFile", "readChunkFromFile"},
 		Stub: []string{"source and target stores (fault injecting)", "scheduler"},
